@@ -20,6 +20,7 @@ mod spec;
 macro_rules! ffi_proof {
     (fn $name:ident() $body:block) => {
         #[kani::proof]
+        #[kani::unwind(3)] // scaled_size uses iter().map().sum() (slice::Iter::fold), whose trip count CBMC cannot constant-fold; every loop in these harnesses runs <= 2 times (unwinding assertions on)
         #[kani::stub(zffi::secp256k1_pedersen_commitment_parse, ffi_models::pedersen_commitment_parse)]
         #[kani::stub(zffi::secp256k1_pedersen_commitment_serialize, ffi_models::pedersen_commitment_serialize)]
         #[kani::stub(zffi::secp256k1_generator_parse, ffi_models::generator_parse)]
@@ -313,5 +314,45 @@ fn txoutwitness_lens() {
     let w = TxOutWitness::empty();
     assert!(w.surjectionproof_len() == 0 && w.rangeproof_len() == 0 && w.is_empty() && enc_len(&w) == 2);
     kani::cover!(true);
+}
+}
+
+// ---- experiments (to be removed) ----
+ffi_proof! {
+fn exp_conc_1x1() {
+    ffi_models::init_accept_all();
+    let inp = TxIn {
+        previous_output: OutPoint { txid: Txid::from_byte_array([0u8; 32]), vout: 1 },
+        is_pegin: false,
+        script_sig: Script::from(vec![0u8; 1]),
+        sequence: Sequence(0),
+        asset_issuance: AssetIssuance::null(),
+        witness: TxInWitness { amount_rangeproof: None, inflation_keys_rangeproof: None, script_witness: stack(NO, NO), pegin_witness: stack(NO, NO) },
+    };
+    let out = TxOut { asset: confidential::Asset::Null, value: confidential::Value::Explicit(5), nonce: confidential::Nonce::Null,
+        script_pubkey: Script::from(vec![0u8; 2]), witness: TxOutWitness::empty() };
+    let mut i = Vec::with_capacity(1); i.push(inp);
+    let mut o = Vec::with_capacity(1); o.push(out);
+    let tx = mk_tx(i, o);
+    check_tx(tx);
+}
+}
+ffi_proof! {
+fn exp_symscalar_1x1() {
+    ffi_models::init_accept_all();
+    let inp = TxIn {
+        previous_output: OutPoint { txid: Txid::from_byte_array([0u8; 32]), vout: kani::any() },
+        is_pegin: kani::any(),
+        script_sig: Script::from(vec![0u8; 1]),
+        sequence: Sequence(kani::any()),
+        asset_issuance: AssetIssuance::null(),
+        witness: TxInWitness { amount_rangeproof: None, inflation_keys_rangeproof: None, script_witness: stack(NO, NO), pegin_witness: stack(NO, NO) },
+    };
+    let out = TxOut { asset: confidential::Asset::Null, value: confidential::Value::Explicit(kani::any()), nonce: confidential::Nonce::Null,
+        script_pubkey: Script::from(vec![0u8; 2]), witness: TxOutWitness::empty() };
+    let mut i = Vec::with_capacity(1); i.push(inp);
+    let mut o = Vec::with_capacity(1); o.push(out);
+    let tx = mk_tx(i, o);
+    check_tx(tx);
 }
 }
